@@ -121,6 +121,9 @@ fn tool_args(name: &str, k: u64) -> String {
         "grep" => json!({"pattern": "seed"}).to_string(),
         "read" => json!({"path": "seed.txt"}).to_string(),
         "write" => json!({"path": format!("w{k}.txt"), "content": "x"}).to_string(),
+        "write!" => json!({"bogus": k}).to_string(),
+        "read?" => json!({"path": format!("missing{k}.txt")}).to_string(),
+        "bash" => json!({"command": format!("echo hi >> b{k}.txt"), "cwd": "."}).to_string(),
         _ => json!({"k": k}).to_string(),
     }
 }
@@ -152,8 +155,10 @@ pub fn gen_response(rng: &mut Rng, serial: &mut u64, ncalls: usize, wild: bool, 
     for c in 0..ncalls {
         *serial += 1;
         let k = *serial;
-        let name = rng.pick(tools).to_string();
-        let full = tool_args(&name, k);
+        // pseudo names: `write!` = invalid arguments, `read?` = a failing call
+        let pseudo = rng.pick(tools).to_string();
+        let name = pseudo.trim_end_matches(|c| c == '!' || c == '?').to_string();
+        let full = tool_args(&pseudo, k);
         let mut item_id = Some(format!("fc_{k}"));
         let mut call_id = Some(format!("call_{k}"));
         let mut idx = c as u64;
@@ -565,6 +570,13 @@ fn excluded_by(tool_choice: &Value, name: &str) -> bool {
     }
 }
 
+/// DEFAULT_MAX_TOOL_CALLS as the translator read it from the current source
+fn max_tool_calls() -> usize {
+    let text = std::fs::read_to_string("/verif/.build/gen.json").expect("gen.json (run ripx)");
+    let v: Value = serde_json::from_str(&text).unwrap();
+    v["consts"].as_array().and_then(|a| a.iter().find(|c| c["name"] == "provider_openresponses_DEFAULT_MAX_TOOL_CALLS")).and_then(|c| c["value"].as_str()).and_then(|s| s.parse().ok()).expect("DEFAULT_MAX_TOOL_CALLS in gen.json")
+}
+
 fn e2e_cases(rep: &mut Report, model: &mut Model, rng: &mut Rng, n: u64, big: bool) {
     let followup_text = "continue please";
     for case_no in 0..n {
@@ -710,7 +722,7 @@ fn e2e_cases(rep: &mut Report, model: &mut Model, rng: &mut Rng, n: u64, big: bo
         if excluded_by(&tool_choice, "write") && !res.files.is_empty() {
             rep.oracle_failure("C16|barred-tool-side-effect", &format!("files {:?} were written although tool_choice {tool_choice} excludes write", res.files), case.clone());
         }
-        if n_exec + n_rej > 32 {
+        if n_exec + n_rej > max_tool_calls() {
             rep.oracle_failure("C16|bound-exceeded", &format!("{} tool calls in one run", n_exec + n_rej), case.clone());
         }
         // (e) an invalid request is never sent
